@@ -11,6 +11,8 @@ import sys
 import tempfile
 import xml.etree.ElementTree as ET
 
+REPO = os.environ.get("VSG_REPO", "/repo")
+
 VSG = os.path.join(os.path.dirname(sys.executable), "vsg")
 
 
@@ -349,6 +351,164 @@ def c15_case(args):
             if open(os.path.join(e1, n)).read() != open(os.path.join(e2, n)).read():
                 probs.append("fixed text of %s differs between alone and in a batch after a file with open regions" % n)
         return (paths, probs)
+    finally:
+        shutil.rmtree(d, ignore_errors=True)
+
+
+BASE_ATTRS = {"indent_style", "indent_size", "phase", "disable", "fixable", "severity", "user_error_message"}
+
+
+def option_leak_jobs():
+    """(rule id, option, a value that differs from the rule's default, fixture of the rule) for every option of every rule whose
+    own fixture exists"""
+    import contextlib
+    import io
+
+    from vsg import rule_list, vhdlFile
+
+    with contextlib.redirect_stdout(io.StringIO()):
+        rl = rule_list.rule_list(vhdlFile.vhdlFile([""]), None)
+    out = []
+    for o in rl.rules:
+        fx = os.path.join(REPO, "tests", o.name, "rule_%s_test_input.vhd" % o.identifier)
+        if o.deprecated or not os.path.exists(fx):
+            continue
+        for k in o.configuration:
+            if k in BASE_ATTRS:
+                continue
+            cur = getattr(o, k, None)
+            if isinstance(cur, list):
+                v = ["zz_"] if k in ("prefixes", "suffixes") else [".*"]
+            elif k == "case":
+                v = "upper" if cur != "upper" else "lower"
+            elif isinstance(cur, bool):
+                v = not cur
+            elif isinstance(cur, int):
+                v = cur + 2
+            elif cur in ("yes", "no"):
+                v = "no" if cur == "yes" else "yes"
+            elif k == "style" and isinstance(cur, str) and "blank_line" in cur:
+                v = "no_blank_line" if cur != "no_blank_line" else "require_blank_line"
+            elif k == "action" and cur in ("add", "remove"):
+                v = "remove" if cur == "add" else "add"
+            else:
+                continue
+            out.append((o.unique_id, k, v, fx))
+    return out
+
+
+def c15_option_leak_case(args):
+    """in one process: the rule's own fixture is checked, then another file whose file_rules entry gives that rule a different
+    option value, then the fixture again with the plain configuration: the two results of the fixture are equal (a per-file option
+    of one file must not reach the next file through state the rule objects share)"""
+    rid, attr, value, fixture = args
+    import importlib
+
+    from vsg import apply_rules, config
+
+    vf = importlib.import_module("vsg.vhdlFile.vhdlFile")
+    d = tempfile.mkdtemp(prefix="c15o_")
+    cwd = os.getcwd()
+    try:
+        shutil.copyfile(fixture, os.path.join(d, "b.vhd"))
+        shutil.copyfile(fixture, os.path.join(d, "a.vhd"))
+        # the rule is switched on for both files (naming rules are off by default); only a.vhd gets the other option value
+        json.dump({"rule": {rid: {"disable": False}}, "file_rules": [{"a.vhd": {"rule": {rid: {attr: value}}}}]}, open(os.path.join(d, "c.json"), "w"))
+        os.chdir(d)
+        cla = vf.command_line_args()
+        cla.style = None
+        cla.configuration = ["c.json"]
+        cla.filename = []
+        cla.junit = None
+        cla.json = "x"
+        cla.quality_report = None
+        cla.local_rules = None
+        cla.fix = False
+        cla.backup = False
+        cla.all_phases = True
+        cla.fix_phase = 7
+        cla.output_format = "vsg"
+        cla.fix_only = None
+        oConfig = config.New(cla)
+
+        def run(i, n):
+            x = apply_rules.apply_rules(cla, oConfig, (i, n))
+            return (x[0], sorted((v["rule"], v["linenumber"], v["solution"]) for v in x[2].get("violations", [])))
+
+        first = run(1, "b.vhd")
+        other = run(0, "a.vhd")
+        again = run(1, "b.vhd")
+        if first != again:
+            mine = lambda r_: [v for v in r_[1] if v[0] == rid]
+            return (args, "after a file with the per-file option %s.%s = %r was checked, the rule's own fixture reports %d violations of %s instead of %d (%d instead of %d in all)" % (rid, attr, value, len(mine(again)), rid, len(mine(first)), len(again[1]), len(first[1])), other != first)
+        return (args, None, other != first)
+    except Exception:  # noqa: an option value the rule cannot digest is not this scenario's business (C19 runs the documented values)
+        return (args, None, False)
+    finally:
+        os.chdir(cwd)
+        shutil.rmtree(d, ignore_errors=True)
+
+
+def option_leak_part(c, Finding, corpus):
+    """shared by C06 and C15"""
+    jobs = option_leak_jobs()
+    if c.tier == "quick":
+        r = random.Random(c.seed + 615)
+        lists = [j for j in jobs if isinstance(j[2], list)]
+        rest = [j for j in jobs if not isinstance(j[2], list)]
+        jobs = r.sample(lists, min(len(lists), 120)) + r.sample(rest, min(len(rest), 120))
+    res = corpus.pmap(c15_option_leak_case, jobs, chunksize=2)
+    c.bounded["per_file_option_does_not_leak"] = {"evaluations": 3 * len(res), "distinct_nontrivial": sum(1 for x in res if x[2]), "rule": "in one process (what -p 1 and a busy worker do): a rule's own fixture, then a file whose file_rules entry gives that rule another option value (lists of exceptions / prefixes, case, widths, yes/no options, blank-line styles), then the fixture again under the plain configuration: both results of the fixture are equal; non-trivial = the option changed the result of the other file"}
+    for args, why, _ in res:
+        if why:
+            c.findings.append(Finding("bounded", "option_leak", why, {"rule": args[0], "option": args[1], "value": args[2], "fixture": args[3], "observed": why, "how_to_rerun": "cd /verif && /venv/bin/python -c 'from bounded import cli; print(cli.c15_option_leak_case(%r))'" % (tuple(args),)}, "%s.%s" % (args[0], args[1])))
+            break
+
+
+def c15_filelist_case(args):
+    """a file's own rule settings in file_list (and file_rules) follow the FILE, not its position: its result is the same
+    whether the files come from the file_list alone or from -f in any order, with other files in front of it or not"""
+    paths, seed = args
+    r = random.Random(seed)
+    d = tempfile.mkdtemp(prefix="c15f_")
+    probs = []
+    try:
+        names = []
+        for i, p in enumerate(paths[:3]):
+            n = "f%d.vhd" % i
+            shutil.copyfile(p, os.path.join(d, n))
+            names.append(n)
+        # a rule that reports something on each of the first and the last file, so that disabling it is visible
+        picked = {}
+        for n in (names[0], names[-1]):
+            js = os.path.join(d, "probe.json")
+            cli(["-f", n, "-ap", "--json", js], d)
+            rules = sorted({v["rule"] for v in json.load(open(js))["files"][0]["violations"]})
+            picked[n] = r.choice(rules) if rules else "entity_004"
+        cfg = {"file_list": [{names[0]: {"rule": {picked[names[0]]: {"disable": True}}}}] + names[1:-1] + [{names[-1]: {"rule": {picked[names[-1]]: {"disable": True}}}}]}
+        json.dump(cfg, open(os.path.join(d, "cfg.json"), "w"))
+        orders = [None, list(names), list(reversed(names)), [names[0]], [names[-1]], names[1:] + names[:1]]
+        ref = {}
+        for order in orders:
+            js = os.path.join(d, "o.json")
+            if os.path.exists(js):
+                os.remove(js)
+            p = cli((["-f"] + order if order else []) + ["-c", "cfg.json", "-ap", "-p", "1", "--json", js], d)
+            if "Traceback" in p.stderr:
+                probs.append("-f %s: traceback" % (order,))
+                continue
+            jf = {e["file_path"]: sorted((v["rule"], v["linenumber"]) for v in e["violations"]) for e in json.load(open(js))["files"]}
+            for n in (names[0], names[-1]):
+                if n not in jf:
+                    continue
+                if n in ref and ref[n][1] != jf[n]:
+                    probs.append("the result of %s under its own file_list settings depends on the command line: %s vs %s (rule %s disabled for it: reported %s / %s times)" % (n, ref[n][0] or "file_list only", order or "file_list only", picked[n], sum(1 for x in ref[n][1] if x[0] == picked[n]), sum(1 for x in jf[n] if x[0] == picked[n])))
+                ref.setdefault(n, (order, jf[n]))
+                if any(x[0] == picked[n] for x in jf[n]):
+                    probs.append("%s: rule %s is disabled for this file in file_list but reported (-f %s)" % (n, picked[n], order))
+        return (paths, probs[:3])
+    except Exception as e:  # noqa
+        return (paths, ["scenario raised %s: %s" % (type(e).__name__, e)])
     finally:
         shutil.rmtree(d, ignore_errors=True)
 
